@@ -2,6 +2,10 @@
 # Regenerates MANIFEST.json from the table below (kept in one place so the manifest stays valid).
 import json, subprocess
 CLAIMED = {
+ "C10": dict(
+   text="Layout contracts (FLV v10 E.4.2.1 / E.4.3.1 plus the documented Opus extension) on the real audio/video packagers, both directions, over the full field ranges; four round-trip lemmas (frame->bytes->frame and bytes->frame->bytes, audio and video) proved from the contracts for all payload lengths; rate-code tables.",
+   note="Trusted: govc translation, go/ssa, SMT solvers; bytes.Buffer modelled as a byte sequence; canonical bodies = what the encoder emits (Opus: defined rate code, zero first-byte rate bits).",
+   design="7/C10"),
  "C11": dict(
    text="Contracts on the real aac functions (Encode, Decode, AudioSpecificConfig Marshal/Unmarshal, ToHz) written from ISO 13818-7 6.2 / ISO 14496-3 1.6.2.1 bit positions; every obligation is an SMT query over 64-bit/8-bit bit-vectors generated from go/ssa of /repo's working tree; plus the composition lemma Decode(Encode(r)++rest)=(r,rest) and the two AudioSpecificConfig round-trip lemmas, proved for all inputs.",
    note="Trusted: the govc translation, go/ssa, the SMT solvers; errors.* constructors modelled (callers/fmt.Sprintf opaque); multi-frame concatenation follows by induction over the proved single-frame lemma (stated, not mechanised).",
